@@ -3,6 +3,8 @@ import Martian.InvocationStr
 import Martian.JsonBytes
 import Martian.InvocationText
 import Martian.InvocationJson
+import Martian.InvocationFork
+import Martian.InvocationSort
 import Driver.Util
 
 /-!
@@ -216,6 +218,97 @@ def parseArgStr (s : String) : Option Arg :=
   | "P" :: r => (parseExpStr (" ".intercalate r)).map .plain
   | _ => none
 
+/-! ### fork invocations (C16-H2): values in the resolver's dynamic types
+
+  mv := `_` (nil) | `V` iexp (ValExp; iexp = exp tokens plus `SPLIT` iexp) | `R` value (RawMessage)
+      | `L{` (`k<hex>` value)* `}` (LazyArgumentMap) | `M{` (`k<hex>` mv)* `}` (MarshalerMap) | `A[` mv* `]` -/
+open Martian.InvocationFork in
+mutual
+def parseIExp : Nat → List String → Option (IExp × List String)
+  | 0, _ => none
+  | _ + 1, [] => none
+  | fuel + 1, tok :: rest =>
+    if tok == "SPLIT" then (parseIExp fuel rest).map fun (e, r) => (.split e, r)
+    else if tok == "[" then (parseIList fuel rest).map fun (xs, r) => (.arr xs, r)
+    else if tok == "{" || tok == "{m" then (parseIKvs fuel rest).map fun (kvs, r) => (.map false kvs, r)
+    else if tok == "{s" then (parseIKvs fuel rest).map fun (kvs, r) => (.map true kvs, r)
+    else (parseScalar tok).map fun l => (.lit l, rest)
+def parseIList : Nat → List String → Option (IList × List String)
+  | 0, _ => none
+  | _ + 1, [] => none
+  | fuel + 1, tok :: rest =>
+    if tok == "]" then some (.nil, rest)
+    else match parseIExp fuel (tok :: rest) with
+      | some (e, r) => (parseIList fuel r).map fun (es, r') => (.cons e es, r')
+      | none => none
+def parseIKvs : Nat → List String → Option (IKvs × List String)
+  | 0, _ => none
+  | _ + 1, [] => none
+  | fuel + 1, tok :: rest =>
+    if tok == "}" then some (.nil, rest)
+    else match tok.toList with
+      | 'k' :: kh =>
+        match bytesOfHex (String.ofList kh) with
+        | some k =>
+          match parseIExp fuel rest with
+          | some (e, r) => (parseIKvs fuel r).map fun (es, r') => (.cons k e es, r')
+          | none => none
+        | none => none
+      | _ => none
+end
+
+def parseJKvsTok (fuel : Nat) (ts : List String) : Option (JKvs × List String) :=
+  (parseKvs fuel ts).map fun (kvs, r) => (toJKvs kvs, r)
+
+open Martian.InvocationFork in
+mutual
+def parseMV : Nat → List String → Option (MV × List String)
+  | 0, _ => none
+  | _ + 1, [] => none
+  | fuel + 1, tok :: rest =>
+    if tok == "_" then some (.nil, rest)
+    else if tok == "V" then (parseIExp fuel rest).map fun (e, r) => (.val e, r)
+    else if tok == "R" then (parseExp fuel rest).map fun (e, r) => (.raw (toJ e), r)
+    else if tok == "L{" then (parseJKvsTok fuel rest).map fun (kvs, r) => (.lazy kvs, r)
+    else if tok == "M{" then (parseMKvs fuel rest).map fun (kvs, r) => (.mmap kvs, r)
+    else if tok == "A[" then (parseMList fuel rest).map fun (xs, r) => (.marr xs, r)
+    else none
+def parseMList : Nat → List String → Option (MList × List String)
+  | 0, _ => none
+  | _ + 1, [] => none
+  | fuel + 1, tok :: rest =>
+    if tok == "]" then some (.nil, rest)
+    else match parseMV fuel (tok :: rest) with
+      | some (v, r) => (parseMList fuel r).map fun (vs, r') => (.cons v vs, r')
+      | none => none
+def parseMKvs : Nat → List String → Option (MKvs × List String)
+  | 0, _ => none
+  | _ + 1, [] => none
+  | fuel + 1, tok :: rest =>
+    if tok == "}" then some (.nil, rest)
+    else match tok.toList with
+      | 'k' :: kh =>
+        match bytesOfHex (String.ofList kh) with
+        | some k =>
+          match parseMV fuel rest with
+          | some (v, r) => (parseMKvs fuel r).map fun (vs, r') => (.cons k v vs, r')
+          | none => none
+        | none => none
+      | _ => none
+end
+
+def parseMVStr (s : String) : Option Martian.InvocationFork.MV :=
+  let ts := tokens s
+  match parseMV (ts.length + 1) ts with
+  | some (v, []) => some v
+  | _ => none
+
+/-- `<hex id>=<rest>` -/
+def splitEq (s : String) : Option (List UInt8 × String) :=
+  match s.splitOn "=" with
+  | k :: r@(_ :: _) => (bytesOfHex k).map fun k => (k, "=".intercalate r)
+  | _ => none
+
 def handle (op : String) (args : List String) : Option String :=
   match op, args with
   | "encode", [e] => do
@@ -298,6 +391,47 @@ def handle (op : String) (args : List String) : Option String :=
     pure ("wf=" ++ boolStr (Martian.InvocationText.wfCallText g name bs) ++ " fok=" ++
       boolStr (Martian.InvocationText.floatsOkBinds g bs) ++ " text=" ++
       hexOfBytes (Martian.InvocationText.printCall g name bs) ++ " back=" ++ back)
+  | "forkinv", g :: decId :: id :: mapped :: rest => do
+    -- the model of Fork.writeInvocation on the resolved inputs of one fork: sig fields `<hex id>=<typeid>`,
+    -- then `|`, then argument fields `<hex id>=<mv>`.  Reply: `built=<b>` and, when built,
+    -- `plain=<b> compiles=<b> wf=<b> fok=<b> cons=<b> text=<hex> data=<hex id>=<json>;… split=<hex,…>`
+    let g ← parseG g
+    let decId ← bytesOfHex decId
+    let id ← bytesOfHex id
+    let mapped ← if mapped == "." then some [] else (mapped.splitOn ",").mapM bytesOfHex
+    let sigF := rest.takeWhile (· != "|")
+    let argF := (rest.dropWhile (· != "|")).drop 1
+    let sig ← sigF.mapM fun f => do
+      let (k, t) ← splitEq f
+      let t ← parseTypeStr t
+      pure (k, t)
+    let margs ← argF.mapM fun f => do
+      let (k, v) ← splitEq f
+      let v ← parseMVStr v
+      pure (k, v)
+    match Martian.InvocationFork.invocationOf sig mapped margs with
+    | none => pure "built=false"
+    | some ibs =>
+      let compiles := Martian.InvocationFork.forkCompiles g decId id ibs
+      match Martian.InvocationFork.plainBinds ibs with
+      | none => pure ("built=true plain=false compiles=" ++ boolStr compiles)
+      | some bs =>
+        let data := match Martian.InvocationFork.forkTextLeg g decId id bs with
+          | some (_, _, bs') =>
+            let d := dataOf bs'
+            ";".intercalate (d.args.map fun a => hexOfBytes a.1 ++ "=" ++ join (showJ a.2)) ++ " split=" ++
+              (if d.splitargs.isEmpty then "." else ",".intercalate (d.splitargs.map hexOfBytes))
+          | none => "none"
+        pure ("built=true plain=true compiles=" ++ boolStr compiles ++ " wf=" ++
+          boolStr (Martian.InvocationFork.wfForkText g decId id bs) ++ " fok=" ++
+          boolStr (Martian.InvocationText.floatsOkBinds g bs) ++ " cons=" ++
+          boolStr (Martian.InvocationFork.splitsConsistent bs) ++ " text=" ++
+          hexOfBytes (Martian.InvocationFork.printFork g decId id bs) ++ " data=" ++ data)
+  | "sortkeys", [e] => do
+    -- member order (C16-M1): the Go map of the members read out in printing order; `sorted=<b> <exp>`
+    let e ← parseExpStr e
+    pure ("sorted=" ++ boolStr (Martian.InvocationSort.sortedE e) ++ " " ++
+      join (showExp (Martian.InvocationSort.sortE e)))
   | "encmap", [h, m] => do
     -- sorted-key raw-message map writer: `<khex>:<vhex>,…` (`.` = empty map)
     let h ← if h == "0" then some false else if h == "1" then some true else none
